@@ -132,14 +132,22 @@ theorem stepT_shape {d : Doc V E} {cfg : Cfg} {i : Nat} {sh sh' : Shared V E} {t
         · simp only [Option.some.injEq] at hs
           have := runTo_store d cfg sh ⟨.enter T r k, stack, chain, todo, out⟩ (k (.err d.recErr))
           exact same _ hs this.1 this.2.1 this.2.2
-        · simp only [Option.some.injEq] at hs
-          exact same _ hs rfl (fun f hf _ => hf) (by intro T r k; simp)
+        · split at hs
+          · simp only [Option.some.injEq] at hs
+            have := runTo_store d cfg sh ⟨.enter T r k, stack, chain, todo, out⟩ (k (.err d.recErr))
+            exact same _ hs this.1 this.2.1 this.2.2
+          · simp only [Option.some.injEq] at hs
+            exact same _ hs rfl (fun f hf _ => hf) (by intro T r k; simp)
     · split at hs
       · simp only [Option.some.injEq] at hs
         have := runTo_store d cfg sh ⟨.enter T r k, stack, chain, todo, out⟩ (k (.err d.recErr))
         exact same _ hs this.1 this.2.1 this.2.2
-      · simp only [Option.some.injEq] at hs
-        exact same _ hs rfl (fun f hf _ => hf) (by intro T r k; simp)
+      · split at hs
+        · simp only [Option.some.injEq] at hs
+          have := runTo_store d cfg sh ⟨.enter T r k, stack, chain, todo, out⟩ (k (.err d.recErr))
+          exact same _ hs this.1 this.2.1 this.2.2
+        · simp only [Option.some.injEq] at hs
+          exact same _ hs rfl (fun f hf _ => hf) (by intro T r k; simp)
   | pushed T r k =>
     simp only [stepT] at hs
     split at hs
@@ -332,8 +340,12 @@ theorem stepT_enabled (d : Doc V E) (cfg : Cfg) (i : Nat) (sh : Shared V E) (t :
     split
     · split
       · rfl
+      · split
+        · rfl
+        · split <;> rfl
+    · split
+      · rfl
       · split <;> rfl
-    · split <;> rfl
   | pushed T r k =>
     simp only [stepT]
     split
